@@ -97,7 +97,9 @@ fn case_strategy(tier: Tier, ex: Excl, wx: crate::props::c02::WhereExcl) -> Boxe
     (cfg_strategy(3), 2usize..=4)
         .prop_flat_map(move |(cfg, n_ctx)| {
             let td = td.clone();
-            let ev = (0..n_ctx, -3i64..5, prop::sample::select(vec![-2.5f64, -0.5, 0.0, 0.25, 1.5, 2.0, 10.5]), prop::sample::select(vec!["a", "b", "B", "ab", "zz", "é"]), 0i64..6, prop::option::weighted(0.7, -2i64..4), prop::sample::select(vec![0u64, 1, 2, 3, 4_000_000_000, i64::MAX as u64]))
+            // integers beyond 2^53 in magnitude (neighbours collapse when compared as f64) and the ends of the i64 range
+            let big = || prop::sample::select(vec![-9007199254740993i64, -9007199254740992, -9007199254740994, 9007199254740992, 9007199254740993, i64::MIN, i64::MIN + 1, i64::MAX, i64::MAX - 1]);
+            let ev = (0..n_ctx, prop_oneof![8 => (-3i64..5).boxed(), 2 => big().boxed()], prop::sample::select(vec![-2.5f64, -0.5, 0.0, 0.25, 1.5, 2.0, 10.5]), prop::sample::select(vec!["a", "b", "B", "ab", "zz", "é"]), 0i64..6, prop::option::weighted(0.7, prop_oneof![8 => (-2i64..4).boxed(), 2 => big().boxed()]), prop::sample::select(vec![0u64, 1, 2, 3, 4_000_000_000, i64::MAX as u64]))
                 .prop_map(|(ctx, x, f, s, t, o, u)| Ev { ty: 0, ctx, vals: vec![json!(x), json!(f), json!(s), json!(1_700_000_000i64 + t * 1800), o.map(|v| json!(v)).unwrap_or(Value::Null), json!(u)] });
             // (four cases in ten; the others keep one event type and their compaction rounds)
             let with_noise = cfg.shard_count >= 2 && n_ctx != 3;
